@@ -113,4 +113,24 @@ theorem foldl_notify_quiet (o : Oracle) (hq : ∀ w ev ph k, o.h w ev ph k = .ni
       rw [h1, h2]
       simp [hs]
 
+
+theorem eMouseUpdate_err_hits (e : EOracle) (fuel : Nat) (s : St) (t : STree) (h : (eMouseUpdate e fuel s t).2 = true) :
+    (eMouseUpdate e fuel s t).1.lastHits = s.lastHits := by
+  unfold eMouseUpdate at h ⊢
+  cases hm : s.mouse with
+  | none => rfl
+  | some p =>
+    obtain ⟨c, r⟩ := p
+    simp only [hm] at h ⊢
+    by_cases h1 : (eNotifyLoop e fuel .mouseLeave (fun h => (hitsAt t c r).contains h) s.lastHits s).2 = true
+    · rw [if_pos h1]
+      exact eNotifyLoop_hits e fuel _ _ _ _
+    · rw [if_neg h1] at h ⊢
+      by_cases h2 : (eNotifyLoop e fuel .mouseEnter (fun h => s.lastHits.contains h) (hitsAt t c r)
+          (eNotifyLoop e fuel .mouseLeave (fun h => (hitsAt t c r).contains h) s.lastHits s).1).2 = true
+      · rw [if_pos h2]
+        rw [eNotifyLoop_hits, eNotifyLoop_hits]
+      · rw [if_neg h2] at h
+        exact absurd h (by simp)
+
 end VaxisModel.Lemmas.VxfwBodyRun
